@@ -256,21 +256,24 @@ Lemma rd_vec_u8_app b rest : Z.of_nat (length b) < 2 ^ 32 ->
   rd_vec_u8 (wr_vec_u8 b ++ rest) = Ok (b, rest).
 Proof.
   intro H. unfold rd_vec_u8, wr_vec_u8. rewrite <- app_assoc, rd_u32_app by lia.
-  rewrite Nat2Z.id. apply take_n_app.
+  destruct (Z.leb_spec (Z.of_nat (length b)) (Z.of_nat (length (b ++ rest)))) as [_|Hc].
+  - rewrite Nat2Z.id. apply take_n_app.
+  - rewrite app_length in Hc. lia.
 Qed.
 
 Lemma rd_vec_u8_inv bs b r : rd_vec_u8 bs = Ok (b, r) ->
   exists a, bs = a ++ b ++ r /\ length a = 4%nat /\ Z.to_nat (le_int a) = length b.
 Proof.
   unfold rd_vec_u8. destruct (rd_u32 bs) as [[n r']| |] eqn:E; try discriminate.
-  intro H. apply rd_u32_inv in E as (a & -> & L & ->). apply take_n_inv in H as [-> L'].
+  intro H. apply rd_u32_inv in E as (a & -> & L & ->).
+  destruct (_ <=? _); [|discriminate]. apply take_n_inv in H as [-> L'].
   exists a. auto.
 Qed.
 
 Lemma rd_vec_u8_np bs : rd_vec_u8 bs <> Panic.
 Proof.
   unfold rd_vec_u8. pose proof (rd_u32_np bs). destruct (rd_u32 bs) as [[n r]| |]; try congruence.
-  apply take_n_np.
+  destruct (_ <=? _); [apply take_n_np|discriminate].
 Qed.
 
 Lemma wr_vec_u8_len b : length (wr_vec_u8 b) = (4 + length b)%nat.
@@ -344,7 +347,7 @@ Lemma rd_vec_np {A} minsz (rd : reader A) : np_reader rd -> np_reader (rd_vec mi
 Proof.
   intros H bs. unfold rd_vec. pose proof (rd_u32_np bs).
   destruct (rd_u32 bs) as [[n r]| |]; try congruence.
-  destruct (_ <=? _)%nat; [apply rd_n_np, H|discriminate].
+  destruct (_ <=? _); [apply rd_n_np, H|discriminate].
 Qed.
 
 Lemma rd_n_app {A B} (rd : reader B) (w : A -> bytes) (f : A -> B) l rest :
@@ -379,10 +382,10 @@ Lemma rd_vec_app {A B} minsz (rd : reader B) (w : A -> bytes) (f : A -> B) l res
   rd_vec minsz rd (wr_vec w l ++ rest) = Ok (map f l, rest).
 Proof.
   intros Hl Hmin Hrt. unfold rd_vec, wr_vec. rewrite <- app_assoc, rd_u32_app by lia.
-  rewrite Nat2Z.id. pose proof (flat_map_min_len w minsz l Hmin) as Hlen.
-  destruct (Nat.leb_spec (length l * minsz) (length (flat_map w l ++ rest))) as [_|Hc].
-  - apply rd_n_app, Hrt.
-  - rewrite app_length in Hc. lia.
+  pose proof (flat_map_min_len w minsz l Hmin) as Hlen.
+  destruct (Z.leb_spec (Z.of_nat (length l) * Z.of_nat minsz) (Z.of_nat (length (flat_map w l ++ rest)))) as [_|Hc].
+  - rewrite Nat2Z.id. apply rd_n_app, Hrt.
+  - rewrite app_length in Hc. nia.
 Qed.
 
 (* decoded items satisfy [v], threading an invariant [Q] on the remaining input *)
@@ -408,7 +411,7 @@ Proof.
   intros Hsuf H bs l r HQ E. unfold rd_vec in E.
   destruct (rd_u32 bs) as [[n r1]| |] eqn:En; try discriminate.
   apply rd_u32_inv in En as (a & -> & La & ->).
-  destruct (_ <=? _)%nat; try discriminate.
+  destruct (_ <=? _); try discriminate.
   destruct (rd_n_inv rd Q v H _ _ _ _ (Hsuf _ _ HQ) E) as (Hl & HQr & Hlen).
   split; [exact Hl|]. split; [exact HQr|]. exists a. eauto.
 Qed.
@@ -475,8 +478,9 @@ Lemma rd_vec_u8_pf bytes_ b x : Z.of_nat (length bytes_) < 2 ^ 32 -> x <> [] ->
   b ++ x = wr_vec_u8 bytes_ -> rd_vec_u8 b = Err.
 Proof.
   intros Hl Hx E. unfold wr_vec_u8 in E. apply prefix_split in E as [(l & -> & El)|(y & Hy & Ey)].
-  - unfold rd_vec_u8. rewrite rd_u32_app by lia. rewrite Nat2Z.id. apply take_n_short.
-    rewrite <- El, app_length. destruct x; [congruence|cbn [length]; lia].
+  - unfold rd_vec_u8. rewrite rd_u32_app by lia.
+    destruct (Z.leb_spec (Z.of_nat (length bytes_)) (Z.of_nat (length l))) as [Hc|_]; [|reflexivity].
+    rewrite <- El, app_length in Hc. destruct x; [congruence|cbn [length] in Hc; lia].
   - unfold rd_vec_u8. rewrite rd_u32_short; [reflexivity|].
     rewrite <- (u32le_len (Z.of_nat (length bytes_))), <- Ey, app_length.
     destruct y; [congruence|cbn [length]; lia].
@@ -504,9 +508,50 @@ Lemma rd_vec_pf {A B} minsz (rd : reader B) (w : A -> bytes) (f : A -> B) l b x 
 Proof.
   intros Hl Hrt Hpf Hx E. unfold wr_vec in E.
   apply prefix_split in E as [(t & -> & Et)|(y & Hy & Ey)].
-  - unfold rd_vec. rewrite rd_u32_app by lia. rewrite Nat2Z.id.
-    destruct (_ <=? _)%nat; [|reflexivity]. eapply rd_n_pf; eauto.
+  - unfold rd_vec. rewrite rd_u32_app by lia.
+    destruct (_ <=? _); [|reflexivity]. rewrite Nat2Z.id. eapply rd_n_pf; eauto.
   - unfold rd_vec. rewrite rd_u32_short; [reflexivity|].
     rewrite <- (u32le_len (Z.of_nat (length l))), <- Ey, app_length.
     destruct y; [congruence|cbn [length]; lia].
 Qed.
+
+Print Assumptions le_digits_int.
+Print Assumptions le_digits_ok.
+Print Assumptions le_digits_len_nat.
+Print Assumptions le_digits_len.
+Print Assumptions le_bytes_min_int.
+Print Assumptions le_bytes_min_ok.
+Print Assumptions le_bytes_min_len.
+Print Assumptions be_digits_int.
+Print Assumptions be_digits_ok.
+Print Assumptions be_digits_len.
+Print Assumptions le_int_bound.
+Print Assumptions be_int_bound.
+Print Assumptions le_fixed_int.
+Print Assumptions le_fixed_len.
+Print Assumptions le_fixed_ok.
+Print Assumptions rd_u32_app.
+Print Assumptions rd_u16_app.
+Print Assumptions take_n_app.
+Print Assumptions rd_vec_u8_app.
+Print Assumptions take_n_np.
+Print Assumptions rd_u32_np.
+Print Assumptions rd_u16_np.
+Print Assumptions rd_vec_u8_np.
+Print Assumptions rd_n_np.
+Print Assumptions rd_vec_np.
+Print Assumptions mapM_np.
+Print Assumptions strict_np.
+Print Assumptions rd_n_app.
+Print Assumptions rd_vec_app.
+Print Assumptions rd_n_inv.
+Print Assumptions rd_vec_inv.
+Print Assumptions rt_de.
+Print Assumptions rt_trailing.
+Print Assumptions rt_inj.
+Print Assumptions rt_step.
+Print Assumptions pf_step.
+Print Assumptions pf_de.
+Print Assumptions rd_vec_u8_pf.
+Print Assumptions rd_n_pf.
+Print Assumptions rd_vec_pf.
